@@ -157,6 +157,16 @@ func (g *c16Gen) class(depth int) *gen.Node {
 			}
 		}
 	}
+	if g.ic && g.rng.Intn(6) == 0 {
+		// the complement of an ASCII letter range written as two ranges ("everything but A-Z"):
+		// normalised to a negated range while the class is built, then case-expanded
+		lo := rune('A' + g.rng.Intn(20))
+		hi := lo + rune(g.rng.Intn(6))
+		if g.rng.Intn(2) == 0 {
+			lo, hi = lo+32, hi+32
+		}
+		n.Items = append([]gen.ClassItem{{T: "range", Lo: 0, Hi: lo - 1, Sp: 15}, {T: "range", Lo: hi + 1, Hi: unicode.MaxRune, Sp: 15}}, n.Items...)
+	}
 	if depth > 0 && !g.ecma && g.rng.Intn(4) == 0 {
 		n.Sub = g.class(depth - 1)
 	}
